@@ -211,7 +211,11 @@ func (s *RS) Flood(ctx context.Context, sp Spec) (Out, error) {
 			defer wg.Done()
 			n := 0
 			for time.Since(t0) < 400*time.Millisecond {
-				rc.Note(sp.Tok*1000 + g)
+				if sp.Method == "Ident" {
+					rc.Ident(context.Background(), sp.Tok*1000+g) // an id-bearing reverse call: it must return, with a result or an error
+				} else {
+					rc.Note(sp.Tok*1000 + g)
+				}
 				n++
 				time.Sleep(200 * time.Microsecond)
 			}
@@ -641,6 +645,16 @@ func Gone(d *fw.Driver, res *fw.Result, seed int64, lc lossCase, base int) error
 // NotifyGone: notify-tagged reverse calls in flight while the client's connection is reset — each must
 // return (an error is not even reported to the caller of a notification), none may block.
 func NotifyGone(res *fw.Result, seed int64, kind string, base int) error {
+	return floodGone(res, seed, kind, base, "Note", 8)
+}
+
+// CallsGone is NotifyGone with many concurrent id-bearing reverse calls (a request queued for the main loop but
+// not yet taken when the loop exits must still be answered).
+func CallsGone(res *fw.Result, seed int64, kind string, base int) error {
+	return floodGone(res, seed, kind, base, "Ident", 64)
+}
+
+func floodGone(res *fw.Result, seed int64, kind string, base int, method string, n int) error {
 	w, err := newWorld(seed, true)
 	if err != nil {
 		return err
@@ -650,22 +664,26 @@ func NotifyGone(res *fw.Result, seed int64, kind string, base int) error {
 	if err != nil {
 		return err
 	}
-	sig := "reverse notifications while the client goes away kind=" + kind
+	sig := "reverse " + map[string]string{"Note": "notifications", "Ident": "calls"}[method] + " while the client goes away kind=" + kind
 	tok := base + 7
 	go func() {
 		ctx, cc := context.WithTimeout(context.Background(), 2*time.Second)
 		defer cc()
-		c.api.Flood(ctx, Spec{Tok: tok, N: 8})
+		c.api.Flood(ctx, Spec{Tok: tok, N: n, Method: method})
 	}()
 	if !w.rs.C.waitEntered(tok, 2*time.Second) {
 		return fmt.Errorf("harness error: Flood did not start")
 	}
 	time.Sleep(30 * time.Millisecond)
-	w.e.PX.Cut(c.id, kind)
+	if kind == "close" {
+		go c.closer() // the client goes away gracefully
+	} else {
+		w.e.PX.Cut(c.id, kind)
+	}
 	out, ok := w.rs.result(tok, 5*time.Second)
 	if !ok {
-		res.Add(fw.Finding{Kind: "monitor", Signature: sig + " blocked", Detail: "a notify-tagged reverse call made while the client's connection was being lost has not returned 4.5s after the connection was gone",
-			Case: map[string]interface{}{"scenario": "notify-gone", "kind": kind}})
+		res.Add(fw.Finding{Kind: "monitor", Signature: sig + " blocked", Detail: "a reverse call (" + method + ") made while the client's connection was being lost has not returned 4.5s after the connection was gone",
+			Case: map[string]interface{}{"scenario": "flood-gone", "kind": kind, "method": method, "callers": n}})
 	} else {
 		total := 0
 		for _, o := range out.Calls {
@@ -805,6 +823,12 @@ func Run(d *fw.Driver, res *fw.Result, seed int64, thorough bool) error {
 	for j, k := range []string{"rst", "fin"} {
 		base += 1000
 		if err := NotifyGone(res, seed+int64(j), k, base); err != nil {
+			return err
+		}
+	}
+	for j, k := range []string{"rst", "close"} {
+		base += 1000
+		if err := CallsGone(res, seed+int64(j)+5, k, base); err != nil {
 			return err
 		}
 	}
